@@ -81,6 +81,9 @@ func zvC06Configs(thorough bool) []*zvCfg {
 				c.Vars[i].LP = 0
 			}
 		}
+		if thorough {
+			c.Chains = append(c.Chains, "nexthop") // a second rewriting policy: rewrite <-> rewrite replacements
+		}
 		if ap {
 			c.IDs = []uint32{1, 2}
 			c.NPfx = 1
@@ -91,7 +94,7 @@ func zvC06Configs(thorough bool) []*zvCfg {
 			c.IDs = []uint32{0}
 			c.NPfx = 2
 		}
-		c.Name = fmt.Sprintf("family=%s addpath=%v ibgp=%v prefixes=%d", fam, ap, ibgp, c.NPfx)
+		c.Name = fmt.Sprintf("family=%s addpath=%v ibgp=%v prefixes=%d policies=%d", fam, ap, ibgp, c.NPfx, len(c.Chains))
 		return c
 	}
 	for _, ap := range []bool{false, true} {
@@ -137,7 +140,7 @@ func TestVerifC06(t *testing.T) {
 	r := vh.Start(t, "C06")
 	defer r.Finish()
 	r.Rule("per (ineligibility family as_loop | originator_id | cluster_loop | empty_as_path x iBGP/eBGP, and OTC for each admissible role pair + roles off on eBGP) x add-path RX off/on: " +
-		"BFS over all histories of Announce(pfx, eligible | family's ineligible variants | eligible look-alikes, pathID) / Withdraw / Flush / ReplaceFilterChain(accept-all | reject-all | set LOCAL_PREF 200, any order) / " +
+		"BFS over all histories of Announce(pfx, eligible | family's ineligible variants | eligible look-alikes, pathID) / Withdraw / Flush / ReplaceFilterChain(accept-all | reject-all | set LOCAL_PREF 200 | thorough: + set next hop; any order) / " +
 		"Register+Unregister of the Loc-RIB (initially unregistered) and of a recording client, to closure of the canonical state; oracle after every transition and on every call the recording client receives; " +
 		"evaluations = explorations, non-trivial = explorations run to closure")
 	r.Require(zvC06Required...)
